@@ -132,13 +132,21 @@ ChemFails(e) ==
 \* components only read the arrays they share with the model and with their callers: two consecutive
 \* reads of an exposed array are identical (exactly: no tolerance), a handed array is unchanged
 PairOk(p) == p.same /\ RepeatableRel(p.a, p.b)
+\* a tabulated T(P) on its own pressure nodes: every layer of every exposure obeys the table's rule (the node's
+\* temperature on a node, the NEAREST end of the table outside its range, between the neighbours' in between)
+TableOk(t) == \A k \in 1..Len(t.layers) :
+                 TableAlignedRel(t.nodes, t.layers[k].l, t.layers[k].T, t.slack, t.tol, "nearest")
 ReadsFails(e) ==
-    (IF \A j \in 1..Len(e.pairs) : PairOk(e.pairs[j]) THEN {} ELSE {"reads_repeatable"})
+    (IF \A j \in 1..Len(e.tables) : NodesDecreasing(e.tables[j].nodes) THEN {} ELSE {"input_table_not_decreasing"})   \* harness fault
+    \cup (IF \A j \in 1..Len(e.tables) : NodesDecreasing(e.tables[j].nodes) => TableOk(e.tables[j])
+          THEN {} ELSE {"temperature_aligned_with_layers"})
+    \cup (IF \A j \in 1..Len(e.pairs) : PairOk(e.pairs[j]) THEN {} ELSE {"reads_repeatable"})
     \cup (IF \A j \in 1..Len(e.handed) : PairOk(e.handed[j]) THEN {} ELSE {"handed_arrays_unchanged"})
     \cup (IF \A j \in 1..Len(e.told) : PairOk(e.told[j]) THEN {} ELSE {"temperature_aligned_with_layers"})
 ReadsWrong(e) == {e.pairs[j].name : j \in {jj \in 1..Len(e.pairs) : ~PairOk(e.pairs[jj])}}
                  \cup {e.handed[j].name : j \in {jj \in 1..Len(e.handed) : ~PairOk(e.handed[jj])}}
                  \cup {e.told[j].name : j \in {jj \in 1..Len(e.told) : ~PairOk(e.told[jj])}}
+                 \cup {"table:" \o e.tables[j].name : j \in {jj \in 1..Len(e.tables) : ~TableOk(e.tables[jj])}}
 
 Fails(e) == IF e.ev = "levels" THEN LevelsFails(e)
             ELSE IF e.ev = "chem" THEN ChemFails(e)
